@@ -14,3 +14,4 @@ import OxyModel.Props.C13
 #print axioms C13.C13_idle_full_burst_limiter
 #print axioms C13.C13_over_burst_is_error
 #print axioms C13.C13_over_burst_is_error_limiter
+#print axioms C13.C13_refusal_loss_bound
